@@ -251,8 +251,9 @@ class Ctx:
                 return 0
         return GT if pos else LT
 
-    def sign_in(self, d, T):
-        """decide (eagerly) whether sign(d) is in the mask T"""
+    def sign_in(self, d, T, aux=None, force=False):
+        """decide (eagerly) whether sign(d) is in the mask T.
+        force: always record a decision (value_of: the sequence of decisions must not depend on the carried model)"""
         if d.is_const():
             return bool(signmask(d.const_value()) & T)
         p, fl = d.normalized()
@@ -260,28 +261,34 @@ class Ctx:
             T = flip(T)
         possible = self.known.get(p.key)
         if possible is None:
-            q = self._quick_sign(p)
+            q = self._quick_sign(p) if not force else 0
             if q:
                 self.known[p.key] = q
                 return bool(q & T)
             possible = ALL
         tset, fset = possible & T, possible & ~T & ALL
-        if not fset:
-            return True
-        if not tset:
-            return False
+        if not force:
+            if not fset:
+                return True
+            if not tset:
+                return False
         k = self.pos
         self.pos += 1
         h = hash(p.key) & 0xFFFFFFFF
         if k < len(self.prefix):
-            taken, added, ph = self.prefix[k]
+            taken, added, ph, _aux = self.prefix[k]
             if ph != h or taken not in (tset, fset):
                 raise HarnessError("re-execution diverged from its prefix at decision %d" % k)
             if added:
                 self._add(cond(p, taken))
             self.known[p.key] = taken
-            self.decisions.append((taken, added, h))
+            self.decisions.append((taken, added, h, _aux))
             return taken == tset
+        if force and (not fset or not tset):
+            # already decided by what is known: record it so that a re-execution consumes the same decision
+            mine = tset or fset
+            self.decisions.append((mine, False, h, aux))
+            return mine == tset
         model = self.ensure_model()
         s = signmask(p.eval(model))
         if not s & possible:
@@ -289,16 +296,16 @@ class Ctx:
         mine, other = (tset, fset) if s & tset else (fset, tset)
         r = self._check(cond(p, other))
         if r == z3.unsat:
-            self.decisions.append((mine, False, h))
+            self.decisions.append((mine, False, h, aux))
         else:
             om = None
             if r == z3.sat:
                 om = self._complete(self._extract())
             else:
                 self.stats["unknown_forks"] = self.stats.get("unknown_forks", 0) + 1
-            self.alternatives.append((self.decisions + [(other, True, h)], om))
+            self.alternatives.append((self.decisions + [(other, True, h, aux)], om))
             self._add(cond(p, mine))
-            self.decisions.append((mine, True, h))
+            self.decisions.append((mine, True, h, aux))
         self.known[p.key] = mine
         self.stats["decisions"] = self.stats.get("decisions", 0) + 1
         return mine == tset
@@ -312,8 +319,13 @@ class Ctx:
         while True:
             if p.is_const():
                 return p.const_value()
-            v = p.eval(self.ensure_model())
-            if self.sign_in(p - v, EQ):
+            if self.pos < len(self.prefix):
+                v = self.prefix[self.pos][3]  # the candidate tried at this decision on the path being re-executed
+                if v is None:
+                    raise HarnessError("re-execution diverged from its prefix at decision %d (value_of)" % self.pos)
+            else:
+                v = p.eval(self.ensure_model())
+            if self.sign_in(p - v, EQ, aux=v, force=True):
                 return v
             guard += 1
             if guard > 4096:
